@@ -80,7 +80,8 @@ def oracle(orig_t, root, pruned, strict, store_before):
     # 2. kept nodes untouched, order kept; removed = whole subtrees
     orig_nodes = {x[0]: (p, x) for p, x in gen.nodes_of(orig_t)}
     def sub(res, org):
-        if [res.id, res.name, res.content, res.tail, res.prefix] != org[:5] or [[k, v] for k, v in res.attributes.items()] != org[5]:
+        if [res.id, res.name, res.content, res.tail, res.prefix] != org[:5] or [[k, v] for k, v in res.attributes.items()] != org[5] \
+                or [[k, v] for k, v in res.extras.items()] != org[6] or [[k, v] for k, v in res.nsmap.items()] != org[7]:
             return f"kept node {org[1]} was modified"
         oi = 0
         for c in res.children:
@@ -133,6 +134,16 @@ def run(ctx):
         root_e = rng.choice(["eml", "dataset", "dataTable", "creator", "attribute", "methods", "project", "coverage", "access", "individualName", "alternateIdentifier"])
         t = tg.valid_tree(root_e, rng, maxdepth=rng.choice([1, 2, 3]), rep=rng.choice([1, 2]))
         plant(t, rng, tg, rng.choice([0, 1, 2, 3, 5]))
+        # every field of a kept node is to stay as it was: give some nodes tails, extras and namespace maps - also a parent
+        # that binds a prefix its children do not (set_nsmap(..., children=False) produces that)
+        for pth, x in gen.nodes_of(t):
+            r = rng.random()
+            if r < 0.15:
+                x[7] = [["eml", "urn:e"]] + ([["stmml", "urn:s"]] if rng.random() < 0.5 else [])
+            if rng.random() < 0.1:
+                x[6] = [["xml:lang", "en"]]
+            if pth and rng.random() < 0.1:
+                x[3] = " tail "
         strict = rng.random() < 0.5
         impl.reset()
         root = impl.build(t)           # assigns ids into t
